@@ -37,6 +37,16 @@ def _update_vars(fn):
     if isinstance(n, ast.Assign) and isinstance(n.value, ast.Call) and \
         (A.call_name(n.value) or '').split('.')[-1] in src:
       out |= set(A.assigned_names(n.targets[0]))
+  def makes_update(e):
+    return any(isinstance(x, ast.Call) and (A.call_name(x) or '').split('.')[-1] == 'FieldUpdate'
+               for x in ast.walk(e))
+  for n in ast.walk(fn):
+    # updates = [FieldUpdate(...), ...] / [FieldUpdate(...) for ...]
+    if isinstance(n, ast.Assign) and isinstance(n.value, (ast.List, ast.ListComp)) and makes_update(n.value):
+      out |= set(A.assigned_names(n.targets[0]))
+    # updates.append(FieldUpdate(...))
+    if isinstance(n, ast.Call) and (A.call_name(n) or '').endswith('.append') and n.args and makes_update(n.args[0]):
+      out.add((A.call_name(n) or '').split('.')[0])
   changed = True
   while changed:
     changed = False
@@ -61,6 +71,49 @@ def _is_allowed_skip_test(node, update_vars=frozenset({'update', 'updates'})):
   if names and names <= set(update_vars):
     return True
   return False
+
+
+def _skip_edges(g, fn_node):
+  """Edges taken only when notifications are off / no update exists."""
+  blocked = set()
+  uvars = _update_vars(fn_node)
+  for n in g.nodes:
+    if _is_allowed_skip_test(n, uvars):
+      txt = A.unparse(n.ast, 300)
+      skip_lab = 'true' if 'skip_notification' in txt and 'is_change' not in txt else 'false'
+      for m, lab in n.succ:
+        if lab == skip_lab:
+          blocked.add((n.id, m.id, lab))
+  return blocked
+
+
+def _notify_nodes(idx, f, g, depth=0):
+  """CFG nodes of f that notify: a direct self._notify_field_updates(...) call,
+  or a call of a private helper of the same class every normal path of which
+  (notifications on, an update present) notifies."""
+  out = set()
+  for n in g.nodes:
+    if n.ast is None:
+      continue
+    for c in n.calls():
+      d = A.call_name(c) or ''
+      if d == 'self.' + NOTIFY:
+        out.add(n.id)
+      elif depth < 1 and d.startswith('self._') and d.count('.') == 1:
+        cls = idx.enclosing_class(f)
+        h = idx.lookup_method(cls.fq, d.split('.')[1]) if cls is not None else None
+        if h is not None and h is not f and _always_notifies(idx, h, depth + 1):
+          out.add(n.id)
+  return out
+
+
+def _always_notifies(idx, h, depth):
+  g = C.cfg_of(h.node)
+  nn = _notify_nodes(idx, h, g, depth)
+  if not nn:
+    return False
+  seen, _ = g.reach(g.entry, blocked_nodes=nn, blocked_edges=_skip_edges(g, h.node), follow_exc=False)
+  return g.exit.id not in seen
 
 
 def rule_a(ctx):
@@ -95,17 +148,8 @@ def rule_a(ctx):
     # assume notifications enabled and an update exists: block the false edges
     # of the allowed-skip tests (true edge for `skip_notification`-style tests
     # is handled by label below)
-    blocked_edges = set()
-    uvars = _update_vars(f.node)
-    for n in g.nodes:
-      if _is_allowed_skip_test(n, uvars):
-        txt = A.unparse(n.ast, 300)
-        skip_lab = 'true' if 'skip_notification' in txt and 'is_change' not in txt else 'false'
-        for m, lab in n.succ:
-          if lab == skip_lab:
-            blocked_edges.add((n.id, m.id, lab))
-    notify_nodes = {n.id for n in g.nodes if n.ast is not None and any(
-        (A.call_name(c) or '') == 'self.' + NOTIFY for c in n.calls())}
+    blocked_edges = _skip_edges(g, f.node)
+    notify_nodes = _notify_nodes(idx, f, g)
     bad = None
     for n, s in sinks:
       seen, parent = g.reach(n, blocked_nodes=notify_nodes,
